@@ -222,3 +222,6 @@ def api_calls(fl: int, ai: int, si: int, pending: bool, client_gone: bool) -> st
     post: _ == ''
     """
     return verdict(untraced(_api, fl, ai, si, pending, client_gone))
+
+
+from vf.validate.stubs import ALL as VALIDATE  # noqa: E402  (stub-vs-real conformance, run before the obligations)
